@@ -462,6 +462,121 @@ def decl_cases(rng, n):
     return cases
 
 
+# ------------------------------------------------------------------ call chains of arbitrary length
+HOPC = {"this": "HThis", "self": "HSelf", "static": "HStatic", "parent": "HParent"}
+
+
+def chain_script(c):
+    """classes: [(name, extends, [methods declared])]; method c<i> is reached by hop i (c0 by the entry); its body
+    returns the name of the class it is written in followed by what the next hop returns"""
+    hops = c["hops"]
+    n = len(hops)
+    static = [c["entry_static"]] + [h in ("self", "static") for h in hops]
+    out = []
+    for name, ext, ms in c["classes"]:
+        out.append("class %s%s {" % (name, (" extends " + ext) if ext else ""))
+        for i in ms:
+            if i < n:
+                call = {"this": "$this->c%d()", "self": "self::c%d()", "static": "static::c%d()", "parent": "parent::c%d()"}[hops[i]] % (i + 1)
+                body = 'return "%s," . %s;' % (name, call)
+            else:
+                body = 'return "%s";' % name
+            out.append("  public %sfunction c%d() { %s }" % ("static " if static[i] else "", i, body))
+        out.append("}")
+    if c["entry_static"]:
+        out.append('try { echo %s::c0(), "\\n"; } catch (Throwable $e) { echo "ERR\\n"; }' % c["r"])
+    else:
+        out.append('$o = new %s();\ntry { echo $o->c0(), "\\n"; } catch (Throwable $e) { echo "ERR\\n"; }' % c["r"])
+    return "\n".join(out) + "\n"
+
+
+def chain_spec(c):
+    """the reference semantics, recomputed here only to keep generated chains inside the theorem's hypotheses
+    (returns (trace or None, ok)); the verdicts come from Coq"""
+    par = {n: e for n, e, _ in c["classes"]}
+    decl = {n: set(ms) for n, _, ms in c["classes"]}
+    def resolve(n, i):
+        while n is not None:
+            if i in decl[n]:
+                return n
+            n = par[n]
+        return None
+    run = c["r"]
+    lex = resolve(run, 0)
+    if lex is None:
+        return None, True
+    trace, inst, ok = [lex], not c["entry_static"], True
+    for i, h in enumerate(c["hops"]):
+        if h == "this" and not inst:
+            ok = False
+        if h == "parent" and par[lex] is None:
+            ok = False
+        d = {"this": lambda: resolve(run, i + 1), "static": lambda: resolve(run, i + 1), "self": lambda: resolve(lex, i + 1),
+             "parent": lambda: resolve(par[lex], i + 1) if par[lex] is not None else None}[h]()
+        if d is None:
+            return None, ok
+        lex = d
+        trace.append(d)
+        if h in ("self", "static"):
+            inst = False
+    return trace, ok
+
+
+def chain_cases(rng, tier):
+    """4-class hierarchies (a straight chain A<-B<-C<-D and a chain with a fork), every sequence of 1-3 hops over
+    {$this->, self::, static::, parent::} that keeps `$this->` before the first self:: / static::, from an object entry
+    and from a static entry, started on each of the three lowest classes, with the methods declared by alternating /
+    random subsets of the classes; sampled sequences of 4-5 hops"""
+    shapes = [[("A", None), ("B", "A"), ("C", "B"), ("D", "C")],
+              [("A", None), ("B", "A"), ("C", "B"), ("D", "B")]]
+    forms = ["this", "self", "static", "parent"]
+    def valid(seq, static_entry):
+        inst = not static_entry
+        for h in seq:
+            if h == "this" and not inst:
+                return False
+            if h in ("self", "static"):
+                inst = False
+        return True
+    seqs = []
+    for se in (False, True):
+        for n in (1, 2, 3):
+            for seq in itertools.product(forms, repeat=n):
+                if valid(seq, se):
+                    seqs.append((se, list(seq), "chain%d" % n))
+        for _ in range(120 if tier == "quick" else 1500):
+            seq = [rng.choice(forms) for _ in range(rng.randint(4, 5))]
+            if valid(seq, se):
+                seqs.append((se, seq, "chain%d" % len(seq)))
+    pats = [["A", "B", "C", "D"], ["A", "C"], ["B", "D"], ["A"], ["A", "D"], ["B", "C"], ["A", "B"], ["C", "D"]]
+    cases = []
+    for se, seq, gen in seqs:
+        for shape in shapes:
+            for r in ("D", "C", "B"):
+                if shape is shapes[1] and r == "B":
+                    continue
+                assigns = [[pats[0]] * (len(seq) + 1)]
+                assigns += [[rng.choice(pats) for _ in range(len(seq) + 1)] for _ in range(3 if tier == "quick" else 8)]
+                for a in assigns:
+                    classes = [(n, e, [i for i in range(len(seq) + 1) if n in a[i]]) for n, e in shape]
+                    c = {"classes": classes, "entry_static": se, "r": r, "hops": seq, "gen": gen}
+                    tr, ok = chain_spec(c)
+                    if not ok:
+                        continue
+                    if tr is None and rng.random() < 0.8:
+                        continue          # keep only some of the chains that end in "no such method"
+                    cases.append(c)
+    return cases
+
+
+def coq_chain(c, seen):
+    static = [c["entry_static"]] + [h in ("self", "static") for h in c["hops"]]
+    h = {"classes": [{"name": n, "extends": e, "impls": [], "methods": [("c%d" % i, static[i], 0) for i in ms]} for n, e, ms in c["classes"]], "ifaces": []}
+    hops = coq_list('%s "c%d"' % (HOPC[x], i + 1) for i, x in enumerate(c["hops"]))
+    return "(%s, %s, %s, %s, %s, %s)" % (coq_table(h), "true" if c["entry_static"] else "false", q(c["r"]), q("c0"), hops,
+                                         "None" if seen is None else "(Some %s)" % coq_list(q(x) for x in seen))
+
+
 def run_impl(binary, srcs):
     inp = "\n".join(json.dumps({"src": s}) for s in srcs) + "\n"
     p = subprocess.run([binary], input=inp, stdout=subprocess.PIPE, stderr=subprocess.PIPE, text=True, timeout=900)
@@ -483,7 +598,12 @@ def main(ck):
         ck.broken.append("harness-build")
         ck.finish(evaluations=0, distinct_nontrivial=0, rule="harness did not build")
 
-    if ck.replay:
+    hcases = []
+    if ck.replay and "hops" in json.load(open(ck.replay)).get("case", {}):
+        c = json.load(open(ck.replay))["case"]
+        c["classes"] = [(n, e, list(ms)) for n, e, ms in c["classes"]]
+        hcases, cases = [c], []
+    elif ck.replay:
         rp = json.load(open(ck.replay))
         c = rp["case"]
         c["probes"] = [tuple(p) for p in c["probes"]]
@@ -493,6 +613,7 @@ def main(ck):
             i["methods"] = [tuple(x) for x in i["methods"]]
         cases = [c]
     else:
+        hcases = chain_cases(rng, ck.tier)
         cases = enum_subtype() + enum_dispatch() + deep_cases(rng)
         if ck.tier == "quick":
             cases += seeded(rng, 250, 350)
@@ -532,6 +653,44 @@ def main(ck):
         ck.log("harness returned %d results for %d cases rc=%d\n%s" % (len(outs), len(srcs), rc, err[-2000:]))
         ck.broken.append("harness-run")
         ck.finish(evaluations=len(outs), distinct_nontrivial=0, rule="harness crashed")
+
+    # ---- call chains
+    hsrcs = [chain_script(c) for c in hcases]
+    houts, rc, err = run_impl(binary, hsrcs) if hcases else ([], 0, "")
+    if len(houts) != len(hcases):
+        ck.log("harness returned %d results for %d chain cases rc=%d\n%s" % (len(houts), len(hcases), rc, err[-2000:]))
+        ck.broken.append("harness-run:chains")
+        ck.finish(evaluations=len(houts), distinct_nontrivial=0, rule="harness crashed")
+    hterms, hidx = [], []
+    for i, (c, o) in enumerate(zip(hcases, houts)):
+        line = o["out"].strip()
+        if o["outcome"] != "ok" or not line or "\n" in line:
+            ck.violation("impl-error:chain:%s" % o["outcome"], {"case": c, "impl_out": o, "script": hsrcs[i], "clause": "script did not run to completion"})
+            continue
+        c["_seen"] = None if line == "ERR" else line.split(",")
+        hterms.append(coq_chain(c, c["_seen"]))
+        hidx.append(i)
+    hbad = ck.eval_cases("hcases", HEADER, hterms, "check_hcase", shard=300) if hterms else {}
+    for j, cls in sorted(hbad.items(), key=lambda kv: len(hcases[hidx[kv[0]]]["hops"])):
+        i = hidx[j]
+        c = hcases[i]
+        forms = ("static-entry>" if c["entry_static"] else "object>") + ">".join(c["hops"])
+        rep = {"case": {k: c[k] for k in ("classes", "entry_static", "r", "hops", "gen")}, "script": hsrcs[i], "impl_trace": c["_seen"],
+               "reference_trace": chain_spec(c)[0], "clauses": cls}
+        if 99 in cls or 3 in cls:
+            ck.broken.append("generator:chain-outside-hypotheses")
+            ck.violation("generator:chain", dict(rep, clause="generated chain is outside the theorem's hypotheses"), no_failing_input=True)
+            continue
+        if 2 in cls:
+            ck.violation("chain:%s" % forms, dict(rep, clause="call_chain_follows_hierarchy: a hop ran another class's definition than the reference semantics names"))
+        if 1 in cls:
+            ck.broken.append("correspondence:C08.chain")
+            if 2 not in cls:
+                ck.violation("tie:chain:%s" % forms, dict(rep, clause="model vs implementation (tie)"))
+    ck.cov["call_chains"] = {"cases": len(hcases), "by_length": {str(k): sum(1 for c in hcases if len(c["hops"]) == k) for k in range(1, 6)},
+                             "static_entry": sum(1 for c in hcases if c["entry_static"]),
+                             "ending_in_no_such_method": sum(1 for c in hcases if c.get("_seen") is None),
+                             "hops": sum(len(c["hops"]) for c in hcases)}
 
     terms, idx = [], []
     for i, (c, o) in enumerate(zip(cases, outs)):
@@ -587,7 +746,7 @@ def main(ck):
     ck.cov["generators"] = {g: sum(1 for c in cases if c.get("gen") == g) for g in sorted(set(c.get("gen") for c in cases))}
     ck.cov["classes_per_hierarchy"] = {str(k): sum(1 for c in cases if len(c["h"]["classes"]) == k) for k in range(1, 8)}
     ck.cov["interfaces_per_hierarchy"] = {str(k): sum(1 for c in cases if len(c["h"]["ifaces"]) == k) for k in range(0, 8)}
-    nprobes = sum(len(c["probes"]) for c in cases)
+    nprobes = sum(len(c["probes"]) for c in cases) + sum(len(c["hops"]) + 1 for c in hcases)
     ck.finish(level="proof", evaluations=nprobes, distinct_nontrivial=nontriv,
               rule="subtype: every hierarchy with 1-3 classes (every parent assignment) x 0-2 interfaces (second may extend first) x every "
                    "implements relation, each (object, type) pair through instanceof / $this instanceof / typed parameter / typed parameter "
@@ -596,5 +755,8 @@ def main(ck):
                    "hierarchies with 2-5 classes, 0-4 interfaces with multiple extends, random overrides, arities and duck interfaces; deep "
                    "structures: straight interface chains and class chains of depth 3-6, interface chain under a class chain, chain+diamond "
                    "mixes, 60 seeded chain-biased hierarchies with 4-7 interfaces; "
-                   "evaluations = probes; non-trivial = distinct hierarchy with at least one extends/implements edge",
+                   "call chains: 4-class hierarchies (straight chain, chain with a fork), every sequence of 1-3 hops over $this-> / self:: / static:: / parent:: "
+                   "(`$this->` before the first self:: / static::) from an object entry and a static entry, started on the three lowest classes, methods declared by "
+                   "all / alternating / random subsets of the classes, plus sampled sequences of 4-5 hops: the full trace of defining classes is compared; "
+                   "evaluations = probes (+ hops); non-trivial = distinct hierarchy with at least one extends/implements edge",
               traces=sum(len(cases[i]["probes"]) for i in idx))
